@@ -185,6 +185,25 @@ CHECKS = {
          "both neighbours intact.",
     note="Base types STRING / INT; quick tier uses a width-limited type set; TLC, PLY, CPython trusted.",
     design="DESIGN.md 3.3, 4 (C09)", technique=TECH + " (Lexer.tla)"),
+ "C05": dict(
+    text="TLC model-checks GapIrrelevant / CaseBlind of spec/Scanner.tla (layout mode) - with the property's provisos as guards of the "
+         "environment - and enumerates every layout with <=1 (2) non-canonical choices over gap classes {3 spaces, tab, LF, CRLF, empty "
+         "line, none} x token boundary and case {lower, mixed} x keyword, from all-upper and all-lower / all-mixed bases, for 14 statement "
+         "skeletons of the four families (CREATE TABLE incl. dialect clauses, 8 ALTER kinds, CREATE INDEX, CREATE SEQUENCE). Every layout is "
+         "rendered and parsed by the real library: the result must equal the canonical rendering's. Corpus scripts are re-laid-out whole "
+         "(LF->CRLF, blank lines, tabs). Layouts TLC tags as deviations (line break directly before a literal) are KNOWN-FINDINGs.",
+    note="The pre-processor's regular expressions are not transcribed: the specification states the intended scanner and the enumeration "
+         "finds the departures; quick tier samples two-choice layouts; TLC, PLY, CPython trusted.",
+    design="DESIGN.md 3.7, 4 (C05)", technique=TECH + " (Scanner.tla)"),
+ "C07": dict(
+    text="TLC model-checks LiteralVerbatim of spec/Scanner.tla (literal mode) and enumerates every string of <=3 (4) character classes out "
+         "of 21 (letters, digits, space, comma, parentheses, =, ;, --, #, /*, */, backslash, non-ASCII, tab, newline, double quote, doubled "
+         "quote, keyword-shaped words, punctuation). Every class string is concretised with representatives drawn by seed and written in "
+         "five literal positions (DEFAULT, COMMENT, CHECK operand, ENUM value, string table option); the real library must report exactly the "
+         "characters between and including the quotes. Numeric defaults of 1..20 digits must come back as equal integers. Classes on which "
+         "the regex pre-processor departs are deviations TLC tags from the literal alone: KNOWN-FINDINGs when listed.",
+    note="Fidelity per character is as good as the class representatives; the pre-processor is not transcribed; TLC, PLY, CPython trusted.",
+    design="DESIGN.md 3.7, 4 (C07)", technique=TECH + " (Scanner.tla)"),
 }
 NOT_YET = {}
 def main():
